@@ -99,4 +99,14 @@ mod verif_kani {
     #[kani::proof]
     #[kani::unwind(20)]
     fn c14_paged_lookup_bounded_unique_keys() { check(&[1, 2, 3], true, &[3, 1, 4, 2], false); }
+
+    #[kani::proof]
+    #[kani::unwind(8)]
+    fn c14x_build_only() {
+        let build = [10u64, 10, 20];
+        let mut m = JoinHashMapU32::with_capacity(3);
+        m.update_from_iter(Box::new(build.iter().enumerate()), 0);
+        assert!(m.next[1] == 1 && m.next[0] == 0 && m.next[2] == 0);
+        std::mem::forget(m);
+    }
 }
